@@ -23,8 +23,8 @@ def O(name, attrs=''):
     return ('o', name, attrs)
 
 
-def C(name):
-    return ('c', name)
+def C(name, pad=''):
+    return ('c', name, pad) if pad else ('c', name)
 
 
 def base_cfg(**kw):
@@ -148,6 +148,20 @@ STRUCT = {
     'child-on-both-wrapper-lines': ["A\n", O('m', RX + ' unwrap-block'), "\n", H(1, 'ind'), O('t', RT), H(1, 'txt'), "\nk", H(1, 'txt'), "\n", C('t'), H(1, 'ind'), "\n", C('m'), "\nB", H(1), "\n"],
     'unwrap-ragged': ["A\n", H(1, 'ind'), O('m', RX + ' unwrap-block'), "\n{\n    ", H(1, 'nb'), "a;\n  ", H(2, 'nb'), "b;\n", H(2, 'nb'), "c;\n", H(1, 'ind'), H(1, 'nb'), "d;\n}\n", C('m'), "\nB\n"],
     'unwrap-empty-line-between': [H(1), "A\n", O('m', RX + ' unwrap-block'), H(1, 'ind'), "\n", H(2, 'ind'), "\n", H(1, 'ind'), C('m'), "\nB", H(1)],
+    # wrapper lines that are completely empty (Markdown style)
+    'unwrap-empty-wrapper-lines': ["A\n", H(1, 'ind'), O('m', RX + ' unwrap-block'), "\n", H(1, 'ind'), "\n  k;", H(1, 'txt'), "\n  j;\n", H(1, 'ind'), "\n", C('m'), "\nB\n"],
+    # a quoted value holding the other quote character and, behind it, words that are keywords when read as attributes
+    'other-quote-then-keywords-in-value': ["A\n", O('t', RT + " c=\"don't skip this\""), "\nq\n", C('t'), "\n", H(1, 'ws'),
+                                           O('m', RX + " c='see \"docs\" - no unwrap-block here'"), "\n{\nk\n}\n", C('m'), "\nB", H(1), "\n"],
+    'to-inside-other-quoted-value': ["A\n", O('t', "note='was \"beta\" to=\"2001-01-01 00:00:00\" in the old markup'"), "\nq\n", C('t'), H(1, 'ws'),
+                                     O('t', "c=\"it's\" to='2001-01-01 00:00:00' d='x'"), "r", C('t'), "\nB", H(1), "\n"],
+    # overlapping regions: <u> is opened inside <a> and never closed there, a stray </u> follows, then ordinary elements
+    'overlap-then-stray-close-then-ready': ["A", O('a'), H(1, 'ws'), O('u'), "p", C('a'), H(1, 'ws'), "q", C('u'), "\n", O('m', RX), "r", C('m'), "\n",
+                                            O('t', PT), "\n", O('t', RT), "w", C('t'), "\n", C('t'), "B", H(1)],
+    # the file ends inside the end delimiter of a closing tag (keep = bytes of the end delimiter that are present)
+    'eof-inside-end-delimiter-1': ["A\n", O('t', RT), "\nq", H(1, 'txt'), "\n", ('pc', 't', 1)],
+    'eof-inside-end-delimiter-2': ["A\n", O('m', RX), H(1, 'ws'), "q\n", ('pc', 'm', 2)],
+    'eof-inside-end-delimiter-4': ["A\n", O('t', RT), "\nq", H(1, 'txt'), "\n", ('pc', 't', 4)],
     'unwrap-adjacent-lines': [H(1), "A ", O('m', RX + ' unwrap-block'), H(1, 'ind'), "\n", H(1, 'ind'), C('m'), " B", H(1)],
 }
 
@@ -286,7 +300,17 @@ def struct_jobs(prop, tier, seed, names=None, budget=None, max_active=None, limi
         for sizes in vs[:1]:
             jobs.append(dict(harness='pipe_clean', label=f'{name} holes={sizes} ds={ds_!r} de={de_!r}',
                              params=dict(tpl=instantiate(tpl, sizes), prop=prop, ds=ds_, de=de_)))
+    for name, (ds_, de_) in FORCED_SPELLING.items():
+        if names and name not in names:
+            continue
+        for sizes in variants(STRUCT[name], budget, max_active, rnd2, 2):
+            jobs.append(dict(harness='pipe_clean', label=f'{name} holes={sizes} ds={ds_!r} de={de_!r}',
+                             params=dict(tpl=instantiate(STRUCT[name], sizes), prop=prop, ds=ds_, de=de_)))
     return jobs
+
+
+# templates that only make sense with multi-character delimiters
+FORCED_SPELLING = {'eof-inside-end-delimiter-1': ('<!-- <', '> -->'), 'eof-inside-end-delimiter-2': ('/* <', '> */'), 'eof-inside-end-delimiter-4': ('<!-- <', '> -->')}
 
 
 def pending_cfg_jobs(tier):
@@ -302,6 +326,11 @@ def pending_cfg_jobs(tier):
             for sizes in ([1, 2, 2, 1], [0, 0, 2, 0]) if tier != 'quick' else ([1, 2, 0, 1],):
                 jobs.append(dict(harness='pipe_clean', label=f'pending by configuration offset={off} now-to={now - t0:+d}s targets={tg} holes={sizes}',
                                  params=dict(tpl=instantiate(doc, sizes), prop='C04', cfg=dict(tl_offset=list(off.encode()), now=now, targets=[list(x.encode()) for x in tg]))))
+    # markers without a usable name are never targeted - also when the empty string is a target (a blank line in a target file)
+    doc2 = ["A\n", O('m'), "\nq\n", C('m'), "\n", H(1, 'ws'), O('m', 'name'), "r", C('m'), H(1, 'ws'), O('m', "id='x'"), "s", C('m'), "\n", O('m', "name='n'"), "t", C('m'), "B\n"]
+    for tg in ([''], ['', 'x'], ['name'], ['m']):
+        jobs.append(dict(harness='pipe_clean', label=f'markers without a name value, targets={tg}', params=dict(tpl=instantiate(doc2, [1, 1]), prop='C04',
+                                                                                                              cfg=dict(targets=[list(x.encode()) for x in tg]))))
     return jobs
 
 
@@ -482,6 +511,10 @@ C01_EXTRA = {
     'unwrap-at-start': [O('m', RX + ' unwrap-block'), "\n", H(2, 'ws'), "{\nk\n}\n", H(1, 'ws'), C('m'), H(2, 'any')],
     'unwrap-at-end': [H(2, 'any'), O('m', RX + ' unwrap-block'), "\n{\nk\n}\n", C('m')],
     'unwrap-two-children': ["A\n", O('m', RX + ' unwrap-block'), "\n{\n", O('t', RT), "\n1\n", C('t'), "\n", H(2, 'ws'), O('t', RT), "\n2\n", C('t'), "\n}\n", C('m'), "\nB"],
+    # a later body line of an unwrapped block begins with arbitrary characters (multi-byte white space, if any code treats it as indentation)
+    'unwrap-body-line-starts-with-any': ["A\n", O('m', RX + ' unwrap-block'), "\n{\n  a;\n", H(3, 'any'), "b;\n}\n", C('m'), "\nB\n"],
+    'unwrap-body-lines-start-with-any-indented': [" A\n ", O('t', RT + ' unwrap-block'), "\n {\n", H(3, 'any'), " a;\n", H(4, 'any'), "b;\n }\n ", C('t'), "\nB\n"],
+    'block-lines-start-and-end-with-any': ["A", H(3, 'any'), "\n", H(3, 'any'), O('m', RX), H(3, 'any'), "\nq\n", H(3, 'any'), C('m'), H(3, 'any'), "\n", H(3, 'any'), "B\n"],
     'pending-unwrap-with-ready-wrapper-child': ["A\n", O('m', PN + ' unwrap-block'), "\n", O('t', RT), "\nq\n", C('t'), "\nk\n}\n", C('m'), H(2, 'ws')],
 }
 
